@@ -26,6 +26,8 @@ import (
 	"github.com/verily-src/fhirpath-go/fhirpath/verifharness/model"
 	"github.com/verily-src/fhirpath-go/internal/fhir"
 	"google.golang.org/protobuf/proto"
+	dtpb "github.com/google/fhir/go/proto/google/fhir/proto/r4/core/datatypes_go_proto"
+	ppb "github.com/google/fhir/go/proto/google/fhir/proto/r4/core/resources/patient_go_proto"
 )
 
 // C04 — compiled expressions are immutable, deterministic and goroutine-safe.
@@ -163,6 +165,8 @@ var c04Sources = []string{
 	"Patient.name.given.exclude('Ann')", "iif(Patient.active, 'a', 'b')", "Patient.active and Patient.deceased.not()", "Patient.gender", "Patient.managingOrganization.reference", "Patient.extension.value", "Patient.meta.lastUpdated",
 	"%fint + %fpos", "%names.family", "%multi.where($this > 1).select($this * 2)", "%context.id", "Patient.name.tail().family", "Patient.name.skip(1).take(1)", "Patient.name[0].given[0].length()",
 	"Patient.nap().name.count()", "%pat.name.given.first()", "Patient.contained.id", "Patient.identifier.where(system.exists()).value", "'x'.matches('^x$')", "5.toQuantity()", "Patient.name.given.first().toChars()", "1 / 0", "Patient.nosuchfield",
+	// elements that carry no precision: conversion must not write into the shared message
+	"%fdtnp.toString()", "%fdnp.toString()", "%ftnp.toString()", "%fdtnp = %fdtnp", "Patient.birthDate.toString()", "Patient.deceased.toString()", "Patient.meta.lastUpdated.toString()",
 }
 
 type c04Obs struct {
@@ -183,6 +187,14 @@ func runC04(env *core.Env) {
 		r, _ := genResource(tn, uint64(100+i), i%2 == 0)
 		resources = append(resources, r)
 	}
+	{
+		// a Patient whose date / time elements carry no precision
+		np := gen.StdPatient()
+		np.BirthDate = &dtpb.Date{ValueUs: 946684800000000, Timezone: "UTC"}
+		np.Deceased = &ppb.Patient_DeceasedX{Choice: &ppb.Patient_DeceasedX_DateTime{DateTime: &dtpb.DateTime{ValueUs: 1700000000000000, Timezone: "+05:30"}}}
+		np.Meta = &dtpb.Meta{LastUpdated: &dtpb.Instant{ValueUs: 1700000000123000, Timezone: "Z"}}
+		resources = append(resources, np)
+	}
 	stdEnv := gen.StdEnv() // shared environment objects
 	eo := append(gen.EnvOpts(stdEnv), evalopts.OverrideTime(c04Fixed))
 	co := []fhirpath.CompileOption{compopts.WithExperimentalFuncs(), compopts.AddFunction("nap", nap)}
@@ -201,7 +213,31 @@ func runC04(env *core.Env) {
 		exprs = append(exprs, ex)
 		srcs = append(srcs, s)
 	}
-	render := func(ex *fhirpath.Expression, r fhir.Resource) (out string) {
+	// pristine copies of the shared inputs: evaluation must leave them as they were
+	pristine := make([]proto.Message, len(resources))
+	for i, r := range resources {
+		pristine[i] = proto.Clone(r)
+	}
+	pristineEnv := map[string]proto.Message{}
+	for _, v := range stdEnv {
+		if m, ok := v.Value.(proto.Message); ok {
+			pristineEnv[v.Name] = proto.Clone(m)
+		}
+	}
+	checkPristine := func(phase string) {
+		env.Cover("inputs-compared-with-pristine-copies")
+		for i, r := range resources {
+			if !proto.Equal(r, pristine[i]) {
+				env.Violatef("C04/shared-input-modified/resource", "after %s shared resource %d (%s) differs from the copy taken before any evaluation", phase, i, r.ProtoReflect().Descriptor().Name())
+			}
+		}
+		for _, v := range stdEnv {
+			if m, ok := v.Value.(proto.Message); ok && !proto.Equal(m, pristineEnv[v.Name]) {
+				env.Violatef("C04/shared-input-modified/variable", "after %s the element bound to %%%s differs from the copy taken before any evaluation", phase, v.Name)
+			}
+		}
+	}
+	renderWith := func(ex *fhirpath.Expression, r fhir.Resource, eo []fhirpath.EvaluateOption) (out string) {
 		defer func() {
 			if p := recover(); p != nil {
 				out = fmt.Sprintf("PANIC:%v", p)
@@ -217,6 +253,7 @@ func runC04(env *core.Env) {
 		}
 		return sb.String()
 	}
+	render := func(ex *fhirpath.Expression, r fhir.Resource) string { return renderWith(ex, r, eo) }
 	// (1) isolated baseline, each in a fresh goroutine
 	base := make([][]string, len(exprs))
 	for i, ex := range exprs {
@@ -305,6 +342,39 @@ func runC04(env *core.Env) {
 			env.SetExtra(fmt.Sprintf("overlapping_evaluation_pairs_g%d", g), float64(overlaps))
 			env.Distinct(fmt.Sprintf("concurrent|g%d|rep%d", g, rep))
 		}
+		// (3b) first touch: g goroutines perform the very first evaluations on a fresh copy of a resource and fresh
+		// environment objects at the same moment (anything computed or filled in lazily on first use meets the race detector)
+		for _, g := range []int{2, 8} {
+			for a := range exprs {
+				ra := (a + rep) % len(resources)
+				fresh := proto.Clone(pristine[ra]).(fhir.Resource)
+				feo := append(gen.EnvOpts(gen.StdEnv()), evalopts.OverrideTime(c04Fixed))
+				outs := make([]string, g)
+				var wg sync.WaitGroup
+				start := make(chan struct{})
+				for gi := 0; gi < g; gi++ {
+					wg.Add(1)
+					go func(gi int) {
+						defer wg.Done()
+						<-start
+						outs[gi] = renderWith(exprs[a], fresh, feo)
+					}(gi)
+				}
+				close(start)
+				wg.Wait()
+				env.Eval(g)
+				for _, o := range outs {
+					if o != base[a][ra] {
+						env.Violatef("C04/nondeterministic/first-touch", "%d goroutines, first evaluations on a fresh copy: `%s` on resource %d: isolated %q, concurrent %q", g, srcs[a], ra, trunc(base[a][ra], 100), trunc(o, 100))
+					}
+				}
+				if !proto.Equal(fresh, pristine[ra]) {
+					env.Violatef("C04/shared-input-modified/first-touch", "`%s` evaluated by %d goroutines changed its input resource %d", srcs[a], g, ra)
+				}
+			}
+			env.Cover("first-touch")
+		}
+		checkPristine(fmt.Sprintf("repetition %d", rep))
 		// (4) concurrent patch: one compiled patch expression applied to distinct resources
 		c04Patch(env, rng)
 		// (5) concurrent Compile histories
@@ -537,7 +607,7 @@ func c04EvalHistory(env *core.Env) {
 func c04Clock(env *core.Env) {
 	co := []fhirpath.CompileOption{compopts.AddFunction("nap", nap)}
 	in := []fhir.Resource{gen.StdPatient()}
-	times := []time.Time{c04Fixed, time.Date(2021, 12, 31, 23, 59, 59, 999000000, time.UTC), time.Date(2020, 2, 29, 0, 0, 0, 0, time.FixedZone("", -39600)), time.Date(1999, 1, 1, 12, 0, 0, 5000000, time.FixedZone("", 45900))}
+	times := []time.Time{c04Fixed, time.Date(2021, 12, 31, 23, 59, 59, 999000000, time.UTC), time.Date(2020, 2, 29, 0, 0, 0, 0, time.FixedZone("", -39600)), time.Date(1999, 1, 1, 12, 0, 0, 5000000, time.FixedZone("", 45900)), {}, time.Unix(0, 0).UTC()}
 	for _, t := range times {
 		env.Cover("clock-override")
 		o := evalopts.OverrideTime(t)
